@@ -1,4 +1,5 @@
 import IceProofs.AgentC06Forms
+import IceTie.AgentRemote
 /-!
 # C06 — candidate and pair bookkeeping stays consistent; Restart leaves no residue
 
@@ -418,5 +419,108 @@ example : (run { cfg := nCfg } (nomEvs.take 4)).connState = .checking ∧
 /-- Restart on a connected agent (`C06_restart_wipes` is not vacuous) -/
 example : (run {} selEvs).closed = false ∧ (run {} selEvs).checklist.length = 2 ∧
     (step (run {} selEvs) (.restart 5 "u" "p")).1.checklist = [] := by decide
+
+/-! ## Tie to the code (T): `AddRemoteCandidate`, `addRemoteCandidate` (agent.go, effect mode) and
+`transportAddressEqual` / `Equal` (candidate_base.go) are REGENERATED on every run -/
+
+open IceModel IceProofs.Agent in
+/-- the public `AddRemoteCandidate`, for ALL arguments: nil and tcptype-active candidates are dropped, an mDNS name is
+dropped / an error / resolved, anything else is handed to the task loop — and for a signalled candidate `c` of the model
+that is the gate of `step (.addRemote now c)`: tcptype active ⇒ state unchanged, nothing emitted; otherwise
+`Agent.addRemoteCandidate` runs -/
+theorem C06_code_AddRemoteCandidate_gate :
+    (∀ (isNil : Bool) (tcpType : Int64) (ty : UInt8) (dotLocal : Bool) (mdnsMode : UInt8) (isHostObject : Bool),
+      IceGen.agent_AddRemoteCandidate isNil tcpType ty dotLocal mdnsMode isHostObject
+        = if isNil || tcpType == 1 then ([], "nil")
+          else if ty == 1 && dotLocal then
+            (if mdnsMode == 1 then ([], "nil")
+             else if !isHostObject then ([], "ErrAddressParseFailed") else ([IceTie.AgentRemote.eGoResolve], "nil"))
+          else ([IceTie.AgentRemote.eGoAdd], "nil")) ∧
+    (∀ (c : Cand) (ty mdnsMode : UInt8) (isHostObject : Bool), c.tt < 2 ^ 63 →
+      (IceGen.agent_AddRemoteCandidate false (Int64.ofNat c.tt) ty false mdnsMode isHostObject).1
+        = if c.tt == 1 then [] else [IceTie.AgentRemote.eGoAdd]) ∧
+    (∀ (a : Agent) (now : Nat) (c : Cand), a.closed = false → c.tt = 1 → step a (.addRemote now c) = (a, [])) ∧
+    (∀ (a : Agent) (now : Nat) (c : Cand), a.closed = false → c.tt ≠ 1 →
+      step a (.addRemote now c) =
+        (((a.addRemoteCandidate c).1.runForced now).1,
+         (a.addRemoteCandidate c).2.1 ++ ((a.addRemoteCandidate c).1.runForced now).2)) :=
+  ⟨IceTie.AgentRemote.AddRemoteCandidate_tie, IceTie.AgentRemote.AddRemoteCandidate_gate,
+   addRemote_active_ignored, addRemote_other_handed⟩
+
+/-- the task `addRemoteCandidate`, for ALL arguments: filtered ⇒ false and nothing touched; an `Equal` candidate listed
+⇒ true and nothing touched; otherwise supersede peer-reflexive candidates, dial a passive candidate (active TCP on, network
+type enabled), append + store, pair with the local candidates of the network type that have no pair yet UNLESS the
+candidate is tcptype passive, request a check -/
+theorem C06_code_addRemoteCandidate (accepted : Bool) (equalListed : List Bool) (disableActiveTCP : Bool) (tcpType : Int64)
+    (netEnabled hasLocals noPair : Bool) :
+    IceGen.agent_addRemoteCandidate accepted equalListed disableActiveTCP tcpType netEnabled hasLocals noPair
+      = if !accepted then ([], false)
+        else if equalListed.any id then ([], true)
+        else ([IceTie.AgentRemote.eReplace]
+              ++ (if !disableActiveTCP && tcpType == 2 && netEnabled then [IceTie.AgentRemote.ePassive] else [])
+              ++ [IceTie.AgentRemote.eAppend, IceTie.AgentRemote.eStore]
+              ++ (if tcpType != 2 && hasLocals then
+                    [IceTie.AgentRemote.eFor] ++ (if noPair then [IceTie.AgentRemote.eAddPair] else []) ++ [IceTie.AgentRemote.eEnd]
+                  else [])
+              ++ [IceTie.AgentRemote.eCheck], true) :=
+  IceTie.AgentRemote.addRemoteCandidate_tie accepted equalListed disableActiveTCP tcpType netEnabled hasLocals noPair
+
+/-- … and the model takes the same exits and applies the same pairing rule: blocked IP ⇒ `(a, [], none)`, an `Equal`
+listed candidate ⇒ `(a, [], some e)`; the pairing loop runs iff the candidate is not tcptype passive -/
+theorem C06_code_addRemoteCandidate_model (a : Agent) (c : Cand) (dis : Bool) (tt : Int64) (ne hl np : Bool) :
+    (a.cfg.blockedIPs.contains (ipOf c.addr) = true →
+      IceGen.agent_addRemoteCandidate false ((a.remotes.filter (·.net == c.net)).map (·.equal c)) dis tt ne hl np = ([], false)
+      ∧ a.addRemoteCandidate c = (a, [], none)) ∧
+    (∀ e, a.cfg.blockedIPs.contains (ipOf c.addr) = false →
+      (a.remotes.filter (·.net == c.net)).find? (·.equal c) = some e →
+      IceGen.agent_addRemoteCandidate true ((a.remotes.filter (·.net == c.net)).map (·.equal c)) dis tt ne hl np = ([], true)
+      ∧ a.addRemoteCandidate c = (a, [], some e)) ∧
+    (c.tt < 2 ^ 63 → ∀ eq : List Bool, eq.any id = false →
+      (IceGen.agent_addRemoteCandidate true eq dis (Int64.ofNat c.tt) ne true np).1.contains IceTie.AgentRemote.eFor = (c.tt != 2) ∧
+      (a.locals.filter fun (x : Cand) => x.net == c.net && c.tt != 2)
+        = (if c.tt != 2 then a.locals.filter (fun x => x.net == c.net) else [])) :=
+  ⟨(IceTie.AgentRemote.addRemoteCandidate_exits a c dis tt ne hl np).1,
+   (IceTie.AgentRemote.addRemoteCandidate_exits a c dis tt ne hl np).2,
+   fun h eq hq => IceTie.AgentRemote.addRemoteCandidate_pairing a c h eq dis ne np hq⟩
+
+/-- `candidateBase.transportAddressEqual` and `Equal` (regenerated, `IceGen.T_Cand`), with their parameters instantiated for
+two distinct resolved candidates of the model whose address ids are tagged by the network, are `Cand.taEqual` / `Cand.equal` -/
+theorem C06_code_taEqual (a b : Cand) (ha : IceTie.AgentRemote.AddrWF a) (hb : IceTie.AgentRemote.AddrWF b)
+    (hna : a.net < 2 ^ 62) (hnb : b.net < 2 ^ 62) (hta : a.tt < 2 ^ 63) (htb : b.tt < 2 ^ 63)
+    (hya : a.ty < 256) (hyb : b.ty < 256) :
+    IceGen.candidateBase_transportAddressEqual true false false
+        (IceTie.AgentRemote.tcpAddrKind a == IceTie.AgentRemote.tcpAddrKind b && ipOf a.addr == ipOf b.addr
+          && a.addr % 16 == b.addr % 16)
+        (Int64.ofNat (a.net + 1)) (Int64.ofNat (b.net + 1)) (ipOf a.addr == ipOf b.addr)
+        (Int64.ofNat (a.addr % 16)) (Int64.ofNat (b.addr % 16)) (Int64.ofNat a.tt) (Int64.ofNat b.tt)
+      = a.taEqual b ∧
+    IceGen.candidateBase_Equal
+        (IceGen.candidateBase_transportAddressEqual true false false
+          (IceTie.AgentRemote.tcpAddrKind a == IceTie.AgentRemote.tcpAddrKind b && ipOf a.addr == ipOf b.addr
+            && a.addr % 16 == b.addr % 16)
+          (Int64.ofNat (a.net + 1)) (Int64.ofNat (b.net + 1)) (ipOf a.addr == ipOf b.addr)
+          (Int64.ofNat (a.addr % 16)) (Int64.ofNat (b.addr % 16)) (Int64.ofNat a.tt) (Int64.ofNat b.tt))
+        (UInt8.ofNat a.ty) (UInt8.ofNat b.ty) (a.rel == b.rel)
+      = a.equal b :=
+  ⟨IceTie.AgentRemote.taEqual_tie a b ha hb hna hnb hta htb,
+   IceTie.AgentRemote.equal_tie a b ha hb hna hnb hta htb hya hyb⟩
+
+/-- non-vacuity: the regenerated functions on concrete arguments; the hypotheses of `C06_code_taEqual` hold for the TCP
+example candidates -/
+example : IceGen.agent_AddRemoteCandidate false 1 1 false 2 true = ([], "nil") ∧
+    IceGen.agent_AddRemoteCandidate false 2 1 false 2 true = ([IceModel.Eff.call "go:addRemoteCandidate" []], "nil") ∧
+    IceGen.agent_AddRemoteCandidate false 0 1 true 1 true = ([], "nil") ∧
+    IceGen.agent_AddRemoteCandidate false 0 1 true 2 true = ([IceModel.Eff.call "go:resolveAndAddMulticastCandidate" []], "nil") ∧
+    IceGen.agent_AddRemoteCandidate false 0 1 true 2 false = ([], "ErrAddressParseFailed") := by decide
+example : (IceGen.agent_addRemoteCandidate true [false, false] true 2 true true true).1
+      = [IceModel.Eff.call "replaceRedundantPrflx" [], IceModel.Eff.call "appendRemote" [], IceModel.Eff.call "storeRemotes" [],
+         IceModel.Eff.call "requestConnectivityCheck" []] ∧
+    (IceGen.agent_addRemoteCandidate true [false] true 0 true true true).1
+      = [IceModel.Eff.call "replaceRedundantPrflx" [], IceModel.Eff.call "appendRemote" [], IceModel.Eff.call "storeRemotes" [],
+         IceModel.Eff.call "for:locals" [], IceModel.Eff.call "addPair" [], IceModel.Eff.call "end:locals" [],
+         IceModel.Eff.call "requestConnectivityCheck" []] ∧
+    IceGen.agent_addRemoteCandidate true [false, true] true 0 true true true = ([], true) := by decide
+example : IceTie.AgentRemote.AddrWF tL ∧ IceTie.AgentRemote.AddrWF tRp ∧ tL.taEqual tRp = false ∧ tRp.taEqual tRp = true := by
+  refine ⟨⟨fun _ => by decide, fun h => by simp [tL, isTCP] at h⟩, ⟨fun _ => by decide, fun h => by simp [tRp, isTCP] at h⟩, by decide, by decide⟩
 
 end IceProps.C06
